@@ -207,12 +207,20 @@ fn real_main() {
                 let mut smt_abs = String::from("null");
                 if theory == Th::Fp && !trivial(claim) {
                     if let B::Same(l, r) | B::Eq(l, r) | B::Ident(l, r) = claim {
+                        // common outer structure is stripped first (sound for identity up to the sign of zero)
+                        let (l, r) = if matches!(claim, B::Ident(..) | B::Eq(..)) { symrt::peel(*l, *r) } else { (*l, *r) };
+                        let (l, r) = (&l, &r);
                         let (rl, rr) = (symrt::reachable(*l), symrt::reachable(*r));
                         let shared: std::collections::HashSet<symrt::R> = rl.intersection(&rr).cloned().collect();
                         if !shared.is_empty() && !shared.contains(&l.0) && !shared.contains(&r.0) {
                             let mut pr3 = Printer::new(Theory::Fp);
                             pr3.abstracted = shared;
-                            let cs3 = b2s(&mut pr3, claim);
+                            let inner = match claim {
+                                B::Same(..) => B::Same(*l, *r),
+                                B::Eq(..) => B::Eq(*l, *r),
+                                _ => B::Ident(*l, *r),
+                            };
+                            let cs3 = b2s(&mut pr3, &inner);
                             let body3 = format!("(assert (not {}))\n", cs3);
                             if pr3.error.is_none() {
                                 let (s3, _) = pr3.finish(&body3, false, None);
